@@ -1,1 +1,491 @@
-/-! # C07 — property theorems (stub: not built yet) -/
+import KM.Lemmas.PwCache
+/-! # C07 — the directory's verdict on a password is final; the offline cache only fills outages
+
+Model: `KM.PwCache` (repaired code; as-found variants `checkServerUnfixed`, `checkRecUnfixed`,
+`syncUnfixed`). Cryptography is a parameter: a row verifies only if keymaster's key signed its
+content (`coerce` in the `tamper` op), an Argon2 hash matches exactly the password `pwId`.
+The theorems quantify over ALL states / ALL operation lists: logins of any user with any
+password, servers going up, down or erroring, password changes, clock advances, primary slow or
+unreachable, synchronisations, and an attacker who rewrites any row of either database with
+anything he can build from blobs keymaster has signed. -/
+namespace KM.PwCache
+
+/-! ## generated facts the model rests on -/
+
+/-- **The source still has the shape the model transcribes** (regenerated on every run): cache
+duration 96 h, record type 1, `expirationDuration` only ever set to that constant; the server loop
+is `bind DN → CheckLDAPUserPassword → on error continue → updateOrDeletePasswordHash → return the
+verdict`, the stored hash is consulted only after the loop and only accepts on a match;
+`updateOrDeletePasswordHash` upserts with expiry now + duration / deletes only on a match;
+`CheckLDAPUserPassword` refuses the empty password first, turns a bind error containing the literal
+"Invalid Credentials" into a verdict and every other error into a fall-through; `GetSigned` compares
+signed subject, type and expiry; synchronisation empties both cache tables inside its transaction;
+every caller of `checkUserPassword` passes the reprocessed name, which reaches the backend as is. -/
+theorem c07_source_shape :
+    KM.Gen.C07.cacheDurationSecs = 96 * 3600 ∧ KM.Gen.C07.passwordDataType = 1 ∧
+    KM.Gen.C07.expirationDurationInits = ["defaultCacheDuration".toList] ∧
+    KM.Gen.C07.authTop = [.initInvalid, .serverLoop, .cacheFallback, .returnReject] ∧
+    KM.Gen.C07.loopBody = [.bindDN, .check, .onErrContinue, .updateOrDelete, .logOnly, .returnVerdict] ∧
+    KM.Gen.C07.fallback = [.logOnly, .getSigned, .onErrReject, .acceptIfMatches] ∧
+    KM.Gen.C07.updPrologue = [.noStorageError] ∧
+    KM.Gen.C07.updValid = [.makeHash, .onErrNil, .expiryNowPlusDuration, .upsert, .logOnly, .returnErr] ∧
+    KM.Gen.C07.updInvalid = [.getSigned, .onErrNil, .deleteIfMatches] ∧
+    KM.Gen.C07.updEpilogue = [.returnNil] ∧
+    KM.Gen.C07.bindStmts = [.timeoutDecl, .rejectEmptyPassword, .connect, .onConnErr, .deferClose, .setTimeout,
+                            .start, .bind, .onBindErr, .returnTrue] ∧
+    KM.Gen.C07.invalidCredentialsLiteral = "Invalid Credentials".toList ∧
+    KM.Gen.C07.checkCallers = ["lib/pwauth/ldap:passwordAuthenticate".toList] ∧
+    KM.Gen.C07.signedChecks = [.subjectIsUser, .typeIsRequested, .notExpired] ∧
+    KM.Gen.C07.getSignedReturnsSignedData = true ∧
+    KM.Gen.C07.rowFilterIsUserTypeAndColumnExpiryStrict = true ∧
+    KM.Gen.C07.syncDeletes = [.txExec "user_profile".toList, .txExec "expiring_signed_user_data".toList] ∧
+    KM.Gen.C07.syncCopiesUnexpiredByColumn = true ∧
+    KM.Gen.C07.passwordCallers.all (fun c => c.2 == NormClass.reprocessedSameVar) = true ∧
+    KM.Gen.C07.passwordCallers.map (·.1) = ["checkAuth".toList, "loginHandler".toList] ∧
+    KM.Gen.C07.checkUserPasswordPassesNameThrough = true ∧
+    KM.Gen.C07.reprocessUsername = [.lowerUnlessDisabled, .regexFilter, .returnName] := by decide
+
+/-! ## the directory's verdict is final -/
+
+/-- **Some server answers ⇒ the result is the directory's verdict**, whatever the stores hold
+(tampered, expired, foreign-signed, another user's record) and whatever the other servers do; an
+acceptance is recorded as a confirmation and — the primary being writable — leaves exactly one fresh
+record for this user and password, signed for this user, of the password type, expiring
+`cacheDur` from now; a rejection confirms nothing, never touches the cache database and never
+creates a record. -/
+theorem c07_dir_final (s : State) (u : User) (pw : Pw) (h : answers s) :
+    (login s u pw).2 = dirAccepts s u pw ∧
+    (dirAccepts s u pw = true →
+      (login s u pw).1.confirmed = (u, pw, s.now) :: s.confirmed ∧
+      (writable s = true → (login s u pw).1.primary u =
+        some { signed := { subject := u, pwId := pw, exp := s.now + cacheDur, type := pwType },
+               sigOK := true, columnExp := s.now + cacheDur })) ∧
+    (dirAccepts s u pw = false →
+      (login s u pw).1.confirmed = s.confirmed ∧ (login s u pw).1.issued = s.issued ∧
+      (login s u pw).1.cache = s.cache ∧
+      ∀ x, (login s u pw).1.primary x = s.primary x ∨ (login s u pw).1.primary x = none) := by
+  unfold login loginWith
+  rw [loop_of_answers s u pw h]
+  cases hd : dirAccepts s u pw
+  · refine ⟨rfl, (fun hc => by cases hc), fun _ => ?_⟩
+    simp only
+    split
+    · split
+      · refine ⟨rfl, rfl, rfl, fun x => ?_⟩
+        simp only [delete]
+        split
+        · by_cases hx : x = u
+          · right; rw [hx, upd_self]
+          · left; rw [upd_other _ _ hx]
+        · exact Or.inl rfl
+      · exact ⟨rfl, rfl, rfl, fun _ => Or.inl rfl⟩
+    · exact ⟨rfl, rfl, rfl, fun _ => Or.inl rfl⟩
+  · refine ⟨rfl, (fun _ => ⟨rfl, fun hw => ?_⟩), (fun hc => by cases hc)⟩
+    simp only [upsert, hw, if_true, upd_self, freshRec, freshSigned]
+
+/-- **Rejection of the cached password evicts it.** Full statement wanted by the property:
+`answers s → dirAccepts s u pw = false → (the user's stored hash is pw's) → afterwards no store
+holds it`. That is FALSE while the primary is unreachable or its cache is stale
+(`c07_evict_lost_witness`, known finding): the proved part — when the store `GetSigned` consults
+holds a valid record of this password and the primary is writable, the primary's record is gone
+after the login; any other rejected password leaves both stores exactly as they were. -/
+theorem c07_evict_partial (s : State) (u : User) (pw : Pw) (h : answers s) (hd : dirAccepts s u pw = false) :
+    (getSigned s u = .found pw → writable s = true → (login s u pw).1.primary u = none) ∧
+    (getSigned s u ≠ .found pw → (login s u pw).1.primary = s.primary ∧ (login s u pw).1.cache = s.cache) := by
+  unfold login loginWith
+  rw [loop_of_answers s u pw h, hd]
+  constructor
+  · intro hg hw
+    simp only [hg, if_true, delete, hw, upd_self]
+  · intro hg
+    simp only
+    split
+    · rename_i p hp
+      split
+      · rename_i hpp; subst hpp; exact absurd hp hg
+      · exact ⟨rfl, rfl⟩
+    · exact ⟨rfl, rfl⟩
+
+/-- the double fault behind the known finding: the directory rejects the cached password while the
+primary is unreachable (the delete fails), the primary comes back, the directory goes away — and the
+rejected password is accepted -/
+theorem c07_evict_lost_witness :
+    (login (run init [.setServers [.up], .changePw 0 (some 1), .login 0 1, .sync, .changePw 0 (some 3),
+                      .setPrim .down, .login 0 1, .setPrim .up, .setServers [.down]]) 0 1).2 = true := by
+  decide
+
+/-! ## the invariant, over arbitrary histories -/
+
+/-- **Every record that verifies comes from a directory-confirmed login**: in every state reachable by
+ANY operation list, each password record keymaster ever signed names a `(user, password, time)` the
+directory confirmed and expires exactly `cacheDur` after it; every row of either database that
+verifies carries such signed content; confirmations never concern the empty password and lie in the
+past. -/
+theorem c07_invariant (ops : List Op) : Inv (run init ops) := inv_run inv_init ops
+
+/-- **Confirmations come only from the directory**: an entry enters the list of confirmed logins
+only through a login during which a server answered and the directory held exactly that password
+for that user at that time. -/
+theorem c07_confirm_only_by_directory (s : State) (op : Op) (u : User) (pw : Pw) (t : Nat)
+    (h : (u, pw, t) ∈ (step s op).confirmed) :
+    (u, pw, t) ∈ s.confirmed ∨ (op = .login u pw ∧ answers s ∧ dirAccepts s u pw = true ∧ t = s.now) := by
+  cases op with
+  | login u' pw' =>
+    simp only [step, stepWith, repaired] at h
+    unfold loginWith at h
+    split at h
+    · rename_i hl
+      simp only [List.mem_cons] at h
+      rcases h with heq | h
+      · right
+        injection heq with h1 h2; injection h2 with h2 h3
+        subst h1; subst h2; subst h3
+        exact ⟨rfl, (loop_some_true s u pw hl).1, (loop_some_true s u pw hl).2, rfl⟩
+      · exact Or.inl h
+    · left
+      split at h
+      · split at h
+        · exact h
+        · exact h
+      · exact h
+    · left
+      split at h <;> exact h
+  | setServer i st => exact Or.inl h
+  | setServers l => exact Or.inl h
+  | changePw u' p => exact Or.inl h
+  | setAnon b => exact Or.inl h
+  | advance dt => exact Or.inl h
+  | setPrim p => exact Or.inl h
+  | sync =>
+    left
+    simp only [step, stepWith, repaired, sync] at h
+    split at h <;> exact h
+  | tamper st u' o => cases st <;> exact Or.inl h
+  | signOther sg =>
+    left
+    simp only [step, stepWith] at h
+    split at h <;> exact h
+
+/-! ## only when no server answers may a cached hash decide -/
+
+/-- **No server answers ∧ accepted ⇒ a record of an earlier confirmed login decided**: in any state
+satisfying the invariant, an acceptance while no server gives verdicts rests on the row of the store
+`GetSigned` consults: it verifies under keymaster's key, is signed for this very user, for the
+password data type and for this very password; the directory confirmed that user with that password
+at some earlier time `t`; the signed expiry is exactly `t + cacheDur`, has not passed, and neither has
+the unsigned column's. The empty password is never accepted. -/
+theorem c07_offline_state (s : State) (hinv : Inv s) (u : User) (pw : Pw) (hno : ¬ answers s)
+    (hacc : (login s u pw).2 = true) :
+    ∃ r t, readRow s u = some r ∧ r.sigOK = true ∧ r.signed.subject = u ∧ r.signed.type = pwType ∧
+      r.signed.pwId = pw ∧ (u, pw, t) ∈ s.confirmed ∧ t ≤ s.now ∧ r.signed.exp = t + cacheDur ∧
+      s.now ≤ r.signed.exp ∧ s.now < r.columnExp ∧ pw ≠ 0 := by
+  unfold login loginWith at hacc
+  have hg : getSigned s u = .found pw := by
+    rcases loop_of_not_answers s u pw hno with hl | hl
+    · rw [hl] at hacc
+      simp only at hacc
+      split at hacc
+      · rename_i p hp
+        have : p = pw := by simpa using hacc
+        rw [← this]; exact hp
+      · cases hacc
+    · rw [hl] at hacc
+      cases hacc
+  obtain ⟨r, hr, hc⟩ := getSigned_found hg
+  obtain ⟨hcol, hok, hsub, hty, hexp, hpw⟩ := checkRec_found hc
+  obtain ⟨hI, hR, hC⟩ := hinv
+  have hiss := hR u r (readRow_mem hr) hok
+  obtain ⟨t, hm, he⟩ := hI r.signed hiss hty
+  rw [hsub, hpw] at hm
+  obtain ⟨hnz, htn⟩ := hC u pw t hm
+  exact ⟨r, t, hr, hok, hsub, hty, hpw, hm, htn, he, hexp, hcol, hnz⟩
+
+/-- the same over histories: after ANY operation list (including every tampering the model's
+attacker can do), an offline acceptance implies an earlier directory-confirmed login of the same user
+with the same password, no more than `cacheDur` (96 h) ago, whose validly signed record decided. -/
+theorem c07_offline (ops : List Op) (u : User) (pw : Pw) (hno : ¬ answers (run init ops))
+    (hacc : (login (run init ops) u pw).2 = true) :
+    ∃ r t, readRow (run init ops) u = some r ∧ r.sigOK = true ∧ r.signed.subject = u ∧
+      r.signed.type = pwType ∧ r.signed.pwId = pw ∧ (u, pw, t) ∈ (run init ops).confirmed ∧
+      t ≤ (run init ops).now ∧ (run init ops).now ≤ t + cacheDur ∧ r.signed.exp = t + cacheDur ∧ pw ≠ 0 := by
+  obtain ⟨r, t, h1, h2, h3, h4, h5, h6, h7, h8, h9, _, h11⟩ :=
+    c07_offline_state (run init ops) (c07_invariant ops) u pw hno hacc
+  exact ⟨r, t, h1, h2, h3, h4, h5, h6, h7, by omega, h8, h11⟩
+
+/-- **A password is accepted only if the directory accepted it for that user** — now or, offline, at
+most `cacheDur` ago: the end-to-end reading of the property over arbitrary histories. -/
+theorem c07_accept_only_confirmed (ops : List Op) (u : User) (pw : Pw)
+    (hacc : (login (run init ops) u pw).2 = true) :
+    dirAccepts (run init ops) u pw = true ∨
+    ∃ t, (u, pw, t) ∈ (run init ops).confirmed ∧ t ≤ (run init ops).now ∧ (run init ops).now ≤ t + cacheDur := by
+  by_cases ha : answers (run init ops)
+  · left
+    rw [← (c07_dir_final _ u pw ha).1]; exact hacc
+  · right
+    obtain ⟨_, t, _, _, _, _, _, h6, h7, h8, _, _⟩ := c07_offline ops u pw ha hacc
+    exact ⟨t, h6, h7, h8⟩
+
+/-! ## an evicted hash stays out (synchronisation mirrors deletions) -/
+
+/-- neither database holds, under `u`, a record of password `pw` -/
+def Clean (s : State) (u : User) (pw : Pw) : Prop :=
+  (∀ r, s.primary u = some r → r.signed.pwId ≠ pw) ∧ (∀ r, s.cache u = some r → r.signed.pwId ≠ pw)
+
+/-- operations that neither rewrite database rows behind keymaster's back nor make `pw` the
+directory password of `u` again -/
+def Quiet (u : User) (pw : Pw) : Op → Prop
+  | .tamper _ _ _ => False
+  | .changePw u' p => ¬ (u' = u ∧ p = some pw)
+  | _ => True
+
+theorem clean_step {s : State} {u : User} {pw : Pw} (hc : Clean s u pw) (hd : dirAccepts s u pw = false)
+    (op : Op) (hq : Quiet u pw op) : Clean (step s op) u pw ∧ dirAccepts (step s op) u pw = false := by
+  cases op with
+  | login u' pw' =>
+    have hd' : dirAccepts (step s (.login u' pw')) u pw = false := by
+      simp only [step, stepWith, repaired, loginWith]
+      split
+      · exact hd
+      · split
+        · split <;> exact hd
+        · exact hd
+      · split <;> exact hd
+    refine ⟨?_, hd'⟩
+    simp only [step, stepWith, repaired, loginWith]
+    split
+    · rename_i hl
+      have hacc := (loop_some_true s u' pw' hl).2
+      refine ⟨fun r hr => ?_, hc.2⟩
+      simp only [upsert] at hr
+      split at hr
+      · rcases upd_some hr with ⟨hx, hv⟩ | ⟨_, hv⟩
+        · injection hv with hv; subst hv
+          simp only [freshRec, freshSigned]
+          intro hpp; subst hpp; subst hx
+          rw [hd] at hacc; cases hacc
+        · exact hc.1 r hv
+      · exact hc.1 r hr
+    · split
+      · split
+        · refine ⟨fun r hr => ?_, hc.2⟩
+          simp only [delete] at hr
+          split at hr
+          · rcases upd_some hr with ⟨_, hv⟩ | ⟨_, hv⟩
+            · cases hv
+            · exact hc.1 r hv
+          · exact hc.1 r hr
+        · exact hc
+      · exact hc
+    · split <;> exact hc
+  | setServer i st => exact ⟨hc, hd⟩
+  | setServers l => exact ⟨hc, hd⟩
+  | changePw u' p =>
+    refine ⟨hc, ?_⟩
+    simp only [step, stepWith, dirAccepts] at hd ⊢
+    by_cases hu : u = u'
+    · subst hu
+      simp only [if_true]
+      cases hz : (pw != 0)
+      · simp
+      · simp only [Bool.true_and]
+        cases p with
+        | none => simp
+        | some p' =>
+          have : ¬ p' = pw := fun e => hq ⟨rfl, by rw [e]⟩
+          simp [this]
+    · simp only [hu, if_false]; exact hd
+  | setAnon b => exact ⟨hc, hd⟩
+  | advance dt => exact ⟨hc, hd⟩
+  | setPrim p => exact ⟨hc, hd⟩
+  | sync =>
+    simp only [step, stepWith, repaired, sync]
+    split
+    · exact ⟨hc, hd⟩
+    · refine ⟨⟨hc.1, fun r hr => ?_⟩, hd⟩
+      exact hc.1 r (unexpired_some hr).1
+  | tamper st u' o => exact absurd hq (by simp [Quiet])
+  | signOther sg =>
+    simp only [step, stepWith]
+    split <;> exact ⟨hc, hd⟩
+
+theorem clean_rejects {s : State} {u : User} {pw : Pw} (hc : Clean s u pw) (hd : dirAccepts s u pw = false) :
+    (login s u pw).2 = false := by
+  unfold login loginWith
+  split
+  · rename_i hl
+    have := (loop_some_true s u pw hl).2
+    rw [hd] at this; cases this
+  · rfl
+  · split
+    · rename_i p hp
+      obtain ⟨r, hr, hcr⟩ := getSigned_found hp
+      have hpw := (checkRec_found hcr).2.2.2.2.2
+      have hne : r.signed.pwId ≠ pw := by
+        rcases readRow_mem hr with h' | h'
+        · exact hc.1 r h'
+        · exact hc.2 r h'
+      rw [hpw] at hne
+      simp [hne]
+    · rfl
+
+theorem clean_run {s : State} {u : User} {pw : Pw} (ops : List Op) (hc : Clean s u pw)
+    (hd : dirAccepts s u pw = false) (hq : ∀ op ∈ ops, Quiet u pw op) :
+    Clean (run s ops) u pw ∧ dirAccepts (run s ops) u pw = false := by
+  induction ops generalizing s with
+  | nil => exact ⟨hc, hd⟩
+  | cons op rest ih =>
+    have h1 := clean_step hc hd op (hq op List.mem_cons_self)
+    exact ih h1.1 h1.2 (fun o ho => hq o (List.mem_cons_of_mem _ ho))
+
+theorem login_reject_found {s : State} {u : User} {pw : Pw} (h : answers s) (hd : dirAccepts s u pw = false)
+    (hg : getSigned s u = .found pw) : (login s u pw).1 = delete s u := by
+  unfold login loginWith
+  rw [loop_of_answers s u pw h, hd]
+  simp only [hg, if_true]
+
+/-- **Rejected, evicted, synchronised ⇒ stays out**: the directory rejects the password the store
+holds (primary reachable), the caches are synchronised, and from then on — through ANY history of
+logins of anybody, server and primary outages, clock advances, further synchronisations and other
+password changes, as long as nobody rewrites database rows and the directory does not take that
+password back — that password is never accepted for that user again, offline or online. -/
+theorem c07_evicted_stays_out (s : State) (u : User) (pw : Pw) (ops : List Op)
+    (hup : s.prim = .up) (h : answers s) (hd : dirAccepts s u pw = false) (hg : getSigned s u = .found pw)
+    (hq : ∀ op ∈ ops, Quiet u pw op) :
+    (login (run (step (step s (.login u pw)) .sync) ops) u pw).2 = false := by
+  have hs1 : step s (.login u pw) = delete s u := login_reject_found h hd hg
+  rw [hs1]
+  have hc : Clean (step (delete s u) .sync) u pw := by
+    simp only [step, stepWith, repaired, sync, delete, writable, hup]
+    constructor
+    · intro r hr
+      simp [upd_self] at hr
+    · intro r hr
+      simp [upd_self, unexpired] at hr
+  have hd2 : dirAccepts (step (delete s u) .sync) u pw = false := by
+    simp only [step, stepWith, repaired, sync, delete, hup]
+    exact hd
+  have := clean_run ops hc hd2 hq
+  exact clean_rejects this.1 this.2
+
+/-! ## the tree as found -/
+
+def asFoundC04 : Variant := { lp := loop, get := getSignedWith checkRecUnfixed, sync := sync }
+def asFoundC15 : Variant := { lp := loop, get := getSigned, sync := syncUnfixed }
+def asFoundEmpty : Variant :=
+  { lp := fun s u pw => loopWith (fun st => checkServerUnfixed s st u pw) s.srv, get := getSigned, sync := sync }
+
+def lastLogin (v : Variant) (ops : List Op) (u : User) (pw : Pw) : Option Bool :=
+  (stepWith v (runWith v init ops) (.login u pw)).2
+
+def expiredRaised : List Op :=
+  [.setServers [.up], .changePw 0 (some 1), .login 0 1, .advance (100 * 3600), .setServers [.down],
+   .tamper .primary 0 (some { signed := { subject := 0, pwId := 1, exp := 0 + cacheDur, type := pwType },
+                              sigOK := true, columnExp := 150 * 3600 })]
+
+/-- as found (b-c04's defect): the signed expiry has passed 4 h ago, the unsigned column is raised,
+the directory is unreachable — accepted; repaired: rejected -/
+theorem c07_unfixed_counterexample_column_expiry :
+    lastLogin asFoundC04 expiredRaised 0 1 = some true ∧ lastLogin repaired expiredRaised 0 1 = some false := by
+  decide
+
+def typeSwapped : List Op :=
+  [.setServers [.down], .signOther { subject := 0, pwId := 3, exp := 50 * 3600, type := pwType + 1 },
+   .tamper .primary 0 (some { signed := { subject := 0, pwId := 3, exp := 50 * 3600, type := pwType + 1 },
+                              sigOK := true, columnExp := 50 * 3600 })]
+
+/-- as found (b-c04's defect): a record keymaster signed for another data type, its row's type
+column edited, is honoured as a password hash -/
+theorem c07_unfixed_counterexample_type_swap :
+    lastLogin asFoundC04 typeSwapped 0 3 = some true ∧ lastLogin repaired typeSwapped 0 3 = some false := by
+  decide
+
+def evictedThenOutage : List Op :=
+  [.setServers [.up], .changePw 0 (some 1), .login 0 1, .sync, .changePw 0 (some 3), .login 0 1, .sync,
+   .setServers [.down], .setPrim .slow]
+
+/-- as found (b-c15's defect): the directory rejected the cached password, the hash was evicted
+from the primary, the caches were synchronised — and the password still works offline, because
+synchronisation never deleted anything from the cache -/
+theorem c07_unfixed_counterexample_sync_eviction :
+    lastLogin asFoundC15 evictedThenOutage 0 1 = some true ∧ lastLogin repaired evictedThenOutage 0 1 = some false := by
+  decide
+
+def emptyPassword : List Op := [.setServers [.up], .changePw 0 (some 1), .setAnon true]
+
+/-- as found: a directory that allows unauthenticated binds "confirms" the empty password for anybody -/
+theorem c07_unfixed_counterexample_empty_password :
+    lastLogin asFoundEmpty emptyPassword 0 0 = some true ∧ lastLogin asFoundEmpty emptyPassword 7 0 = some true ∧
+    lastLogin repaired emptyPassword 0 0 = some false := by
+  decide
+
+/-! ## the other backends, and the name in front of all of them -/
+
+/-- **htpasswd / command backends: accepted ⇒ the backend accepted the reprocessed name**: through
+`loginHandler`/`checkAuth` the backend is asked about `reprocessUsername(name)`; htpasswd accepts only
+if the file parses, has an entry under exactly that name, the entry is a `$2y$` bcrypt hash and it
+matches; the command backend only if the command, given that name as its first argument and the
+password on stdin, exits 0. -/
+theorem c07_backend_only (disable : Bool) (lower : List Char → List Char) (filter : Option (List Char → List Char))
+    (name : List Char) (pw : Pw) :
+    (∀ file, appCheck (reprocess disable lower filter) (htpasswdAuth file) name pw = .accept →
+      ∃ f e, file = some f ∧ f (reprocess disable lower filter name) = some e ∧ e.bcrypt2y = true ∧ e.matchesPw = pw) ∧
+    (∀ exitCode, appCheck (reprocess disable lower filter) (commandAuth exitCode) name pw = .accept →
+      exitCode (reprocess disable lower filter name) pw = some 0) := by
+  constructor
+  · intro file h
+    unfold appCheck htpasswdAuth at h
+    split at h
+    · cases h
+    · rename_i f
+      split at h
+      · cases h
+      · rename_i e he
+        split at h
+        · cases h
+        · rename_i hb
+          split at h
+          · rename_i hm
+            refine ⟨f, e, rfl, he, ?_, hm⟩
+            cases hbb : e.bcrypt2y
+            · exact absurd hbb hb
+            · rfl
+          · cases h
+  · intro ec h
+    unfold appCheck commandAuth at h
+    split at h
+    · rename_i h0; exact h0
+    · cases h
+    · cases h
+
+/-- the LDAP path behind the application: the user whose directory entry is bound and whose hash is
+stored, looked up and evicted is the one named by the reprocessed name -/
+def appLogin (norm : List Char → List Char) (uid : List Char → User) (s : State) (name : List Char) (pw : Pw) :
+    State × Bool := login s (uid (norm name)) pw
+
+/-- **The name looked up is `reprocessUsername(name)`**: two spellings with the same reprocessed form
+are the same login — same verdict, same stored record, same eviction — and with normalisation on,
+reprocessing is idempotent when lower-casing is (so a stored key is always found again). -/
+theorem c07_normalised (disable : Bool) (lower : List Char → List Char) (filter : Option (List Char → List Char))
+    (uid : List Char → User) (s : State) (n1 n2 : List Char) (pw : Pw)
+    (h : reprocess disable lower filter n1 = reprocess disable lower filter n2) :
+    appLogin (reprocess disable lower filter) uid s n1 pw = appLogin (reprocess disable lower filter) uid s n2 pw ∧
+    appLogin (reprocess disable lower filter) uid s n1 pw = login s (uid (reprocess disable lower filter n1)) pw ∧
+    ((∀ x, lower (lower x) = lower x) →
+      reprocess disable lower none (reprocess disable lower none n1) = reprocess disable lower none n1) := by
+  refine ⟨by unfold appLogin; rw [h], rfl, fun hl => ?_⟩
+  unfold reprocess
+  cases disable <;> simp [hl]
+
+/-! ## non-vacuity -/
+
+/-- the hypotheses are satisfiable and the offline path does accept: a confirmed login, both servers
+down, 95 h later the cached hash still decides, 5 h after that it no longer does -/
+example :
+    (login (run init [.setServers [.up, .up], .changePw 0 (some 1), .login 0 1, .sync, .setServers [.down, .err],
+                      .advance (95 * 3600)]) 0 1).2 = true ∧
+    (login (run init [.setServers [.up, .up], .changePw 0 (some 1), .login 0 1, .sync, .setServers [.down, .err],
+                      .advance (95 * 3600), .advance (5 * 3600)]) 0 1).2 = false ∧
+    ¬ answers (run init [.setServers [.up, .up], .changePw 0 (some 1), .login 0 1, .sync, .setServers [.down, .err]]) := by
+  decide
+
+end KM.PwCache
